@@ -10,6 +10,7 @@ GROUP = {
     "parts": [
         ("text", "rust_decimal.rs"),
         ("text", "handles.rs"),
+        ("text", "hashmap_iter_models.rs"),
         ("text", "chrono.rs"),
         ("text", "prices_base.rs"),
         ("text", "prices_spec.rs"),
@@ -150,5 +151,96 @@ GROUP = {
 {
     {EXPR}
 }"""),
+        # ---- build_naive: every pair's prices end up sorted by date (what `latest_usable` above relies on), nothing added, dropped or re-sourced
+        U("NaivePriceRepository(type)", PD, [r"struct NaivePriceRepository<'ctx>"]),
+        ("raw", """
+/// `Vec<(NaiveDate, Decimal)>::sort()` (ASSUMED std: a permutation, ordered by the tuple order - hence by date)
+#[verifier::external_body]
+pub fn sort_rates(v: &mut Vec<(NaiveDate, Decimal)>)
+    ensures final(v)@.to_multiset() == old(v)@.to_multiset(),
+        forall|i: int, j: int| 0 <= i <= j < final(v)@.len() ==> (#[trigger] final(v)@[i]).0.day() <= (#[trigger] final(v)@[j]).0.day(),
+{ unimplemented!() }
+/// e2 is e with its prices sorted by date: same source, same prices
+pub open spec fn sorted_entry(e2: Entry, e: Entry) -> bool {
+    &&& e2.0 == e.0
+    &&& e2.1@.to_multiset() == e.1@.to_multiset()
+    &&& forall|i: int, j: int| 0 <= i <= j < e2.1@.len() ==> (#[trigger] e2.1@[i]).0.day() <= (#[trigger] e2.1@[j]).0.day()
+}
+pub open spec fn sorted_inner(n: HashMap<Commodity, Entry>, o: HashMap<Commodity, Entry>) -> bool {
+    &&& n@.dom() == o@.dom()
+    &&& forall|c: Commodity| o@.contains_key(c) ==> sorted_entry(#[trigger] n@[c], o@[c])
+}
+"""),
+        U("PriceRepositoryBuilder::build_naive", PD, [r"impl<'ctx> PriceRepositoryBuilder<'ctx>", r"fn build_naive\b"], fn="build_naive", wrap=("impl PriceRepositoryBuilder {", "}"),
+          rewrites=[("R7",), RET(),
+                    ("R41-nested-values-mut-for-each", "re:this\\.records\\s*\\.values_mut\\(\\)\\s*\\.for_each\\(\\|x\\| x\\.values_mut\\(\\)\\.for_each\\(\\|x\\| x\\.1\\.sort\\(\\)\\)\\);",
+                     "let keys1__ = hashmap_keys(&this.records); let mut i__: usize = 0;\n        while i__ < keys1__.len() { let k1__ = keys1__[i__]; let mut inner__ = this.records.remove(&k1__).unwrap(); let ghost inner0__ = inner__;\n"
+                     "            let keys2__ = hashmap_keys(&inner__); let mut j__: usize = 0;\n            while j__ < keys2__.len() { let k2__ = keys2__[j__]; let mut x = inner__.remove(&k2__).unwrap(); sort_rates(&mut x.1); inner__.insert(k2__, x); j__ += 1; }\n"
+                     "            this.records.insert(k1__, inner__); i__ += 1; }", 1)],
+          contract="""
+        ensures
+            // C09: "the most recent such price" is the last usable one of a date-sorted vector: every pair's prices are sorted by date, and sorting
+            //      neither adds, drops, changes nor re-sources a price; no pair appears or disappears
+            forall|w: Commodity, o: Commodity| (match slot(self.records@, w, o) {
+                Some(e) => #[trigger] slot(r.records@, w, o) matches Some(e2) && sorted_entry(e2, e),
+                None => slot(r.records@, w, o) is None }),   // @build_naive.every_pair_sorted_by_date_nothing_lost
+""",
+          loops={0: """
+            invariant
+                i__ <= keys1__@.len(), keys1__@.no_duplicates(),
+                forall|k: Commodity| keys1__@.contains(k) <==> self.records@.contains_key(k),
+                this.records@.dom() == self.records@.dom(),
+                forall|a: int| 0 <= a < i__ ==> sorted_inner(#[trigger] this.records@[keys1__@[a]], self.records@[keys1__@[a]]),
+                forall|a: int| i__ <= a < keys1__@.len() ==> #[trigger] this.records@[keys1__@[a]] == self.records@[keys1__@[a]],
+            decreases keys1__@.len() - i__,
+""", 1: """
+                invariant
+                    j__ <= keys2__@.len(), keys2__@.no_duplicates(),
+                    forall|k: Commodity| keys2__@.contains(k) <==> inner0__@.contains_key(k),
+                    inner__@.dom() == inner0__@.dom(),
+                    forall|b: int| 0 <= b < j__ ==> sorted_entry(#[trigger] inner__@[keys2__@[b]], inner0__@[keys2__@[b]]),
+                    forall|b: int| j__ <= b < keys2__@.len() ==> #[trigger] inner__@[keys2__@[b]] == inner0__@[keys2__@[b]],
+                decreases keys2__@.len() - j__,
+"""},
+          loop_body_start={0: "            proof { assert(keys1__@.contains(keys1__@[i__ as int])); }",
+                           1: "                proof { assert(keys2__@.contains(keys2__@[j__ as int])); }"},
+          loop_body_end={1: """                proof {
+                    assert(inner__@.dom() =~= inner0__@.dom());
+                    assert forall|b: int| 0 <= b < j__ implies sorted_entry(#[trigger] inner__@[keys2__@[b]], inner0__@[keys2__@[b]]) by {
+                        if b < j__ - 1 { assert(keys2__@[b] != keys2__@[j__ - 1]); }
+                    }
+                    assert forall|b: int| j__ <= b < keys2__@.len() implies #[trigger] inner__@[keys2__@[b]] == inner0__@[keys2__@[b]] by {
+                        assert(keys2__@[b] != keys2__@[j__ - 1]);
+                    }
+                }""",
+                         0: """            proof {
+                assert(this.records@.dom() =~= self.records@.dom());
+                assert(sorted_inner(inner__, inner0__)) by {
+                    assert forall|c: Commodity| inner0__@.contains_key(c) implies sorted_entry(#[trigger] inner__@[c], inner0__@[c]) by {
+                        assert(keys2__@.contains(c));
+                        let b = choose|b: int| 0 <= b < keys2__@.len() && keys2__@[b] == c;
+                        assert(sorted_entry(inner__@[keys2__@[b]], inner0__@[keys2__@[b]]));
+                    }
+                }
+                assert forall|a: int| 0 <= a < i__ implies sorted_inner(#[trigger] this.records@[keys1__@[a]], self.records@[keys1__@[a]]) by {
+                    if a < i__ - 1 { assert(keys1__@[a] != keys1__@[i__ - 1]); }
+                }
+                assert forall|a: int| i__ <= a < keys1__@.len() implies #[trigger] this.records@[keys1__@[a]] == self.records@[keys1__@[a]] by {
+                    assert(keys1__@[a] != keys1__@[i__ - 1]);
+                }
+            }"""},
+          after_loop={0: """        proof {
+            assert forall|w: Commodity, o: Commodity| (match slot(self.records@, w, o) {
+                Some(e) => #[trigger] slot(this.records@, w, o) matches Some(e2) && sorted_entry(e2, e),
+                None => slot(this.records@, w, o) is None }) by {
+                if self.records@.contains_key(w) {
+                    assert(keys1__@.contains(w));
+                    let a = choose|a: int| 0 <= a < keys1__@.len() && keys1__@[a] == w;
+                    assert(sorted_inner(this.records@[keys1__@[a]], self.records@[keys1__@[a]]));
+                }
+            }
+        }"""}),
+        U("anchor:build sorts before the repository is used", PD, [r"impl<'ctx> PriceRepositoryBuilder<'ctx>", r"pub fn build\b"], no_canary=True,
+          slice=r"(PriceRepository::new\(self\.build_naive\(\)\))", slice_count=1, slice_template="/* anchor: {EXPR} */\n"),
     ],
 }
